@@ -148,7 +148,9 @@ macro_rules! program_impl {
                         }
                         if let (StepRes::Ok(a), StepRes::Ok(b), StepRes::Ok(d)) = (&rd, &rn, &ra) {
                             let finite = |v: &Val| match v { Val::M(m) => m.all_finite(), Val::V(x) => x.iter().all(|q| q.is_finite()), Val::S(s) => s.is_finite(), _ => true };
-                            if finite(a) && finite(b) && finite(d) {
+                            // entry-wise operations have no summation order to differ in: NaN / infinity patterns must agree too
+                            let entrywise = matches!(op, Op::Scale(_, _, _, _));
+                            if entrywise || (finite(a) && finite(b) && finite(d)) {
                                 let tol = if f32w { 1e-4 } else { 1e-9 };
                                 let ok = vals_close(a, b, tol) && vals_close(a, d, tol);
                                 c.check(&format!("consistent-value:{}", name), ok, &sig, || format!("step {}: {:?} ({}): dense {}, ndarray {}, nalgebra {}", step, op, why, a.json(), b.json(), d.json()));
